@@ -29,7 +29,7 @@ TRUSTED = ['classic quantiles model coq/CqDefs.v + coq/SortedView.v written by h
            'random_bit() of zip_buffer and the uniform offset of zip_buffer_with_stride are supplied by the harness through the DATASKETCHES_VERIF hook and replayed by '
            'the model (their generation, i.e. fairness of the engine, is not modelled)',
            'rank numerators are recovered in the harness as llround(rank * n) (IEEE division/multiplication only); quantile ranks in the scripts are dyadic (j / 2^t)']
-ASSUMPTIONS = ['classic quantiles: n < 2^53, fewer than 64 levels (uint8/uint16/uint32/uint64 overflow of the implementation is not modelled)',
+ASSUMPTIONS = ['classic quantiles: the model has unbounded integers; the runs exercise up to about 40 levels (n up to ~2^42, weights up to 2^40, by doubling a sketch with a copy of itself); the code limit of 64 levels / n < 2^64 and the exactness of rank * n in double arithmetic (n < 2^51) are assumed beyond that',
                'classic quantiles: items are totally ordered integers (double sketches receive integer values; NaN only through the dedicated ops); comparator assumed a strict weak order']
 
 KS = [2, 2, 4, 4, 8, 16, 32, 128]
@@ -297,6 +297,25 @@ def gen_c07(rng, tier):
             b.ops += probes(b, r, pts)
         b.feed(0, [1]); b.ops += probes(b, 0, pts)
         cases.append(dict(id='cqw%d' % rep, ops=b.ops, tags=sorted(b.tags | {'cached-view', 'assign' if what in (1, 2, 3) else 'update'})))
+    # directed: many levels.  b := copy of a; a.merge(b) doubles n; 27..36 doublings reach 30..40 levels (weights beyond 2^32),
+    # observing n, the iterator weights, the sorted-view total and the rank of the maximum after every merge
+    for (k, how) in ((2, 'assign'), (4, 'copy'), (16, 'assign'), (16, 'copy')):
+        kind = rng.choice([0, 0, 1])
+        b = Builder(rng, kind)
+        b.ops.append([99, rng.randrange(1 << 30)])
+        b.new(0, k); b.new(1, k)
+        xs = stream(rng, 2 * k * rng.choice([1, 3, 5]) + rng.choice([0, 1, k]))
+        b.feed(0, xs); hi = max(xs); lo = min(xs)
+        reps = rng.randrange(33, 37) if k == 16 else rng.randrange(27, 37)
+        if k < 16: reps = max(reps, 34)
+        for j in range(reps):
+            if how == 'assign': b.assign(1, 0, False)
+            else: b.copy(1, 0)
+            b.vals[0] = []; b.vals[1] = []                 # (the value lists would double as well)
+            b.merge(0, 1, 0)
+            b.ops += [[5, 0], [10, 0], [6, 0, hi], [6, 0, (lo + hi) // 2], [7, 0, 1, 1]]
+        b.ops += [[8, 0, lo, (lo + hi) // 2, hi]]
+        cases.append(dict(id='cqbig_k%d_%s' % (k, how), ops=b.ops, tags=sorted(b.tags | {'merge', 'levels>=32'})))
     # directed: downsampling merges between two estimating sketches (both directions), chains of them
     for rep in range(12 if not thorough else 120):
         kind = rng.choice([0, 0, 1, 2])
@@ -382,10 +401,25 @@ def dbl(bits):
 def is_pow2(w):
     return w > 0 and (w & (w - 1)) == 0
 
+class MS:
+    """multiset of accepted items with multiplicities (a sketch doubled 36 times has 2^40 of them)"""
+    def __init__(self, c=None, n=0):
+        self.c = dict(c or {}); self.n = n
+    def copy(self): return MS(self.c, self.n)
+    def append(self, x): self.c[x] = self.c.get(x, 0) + 1; self.n += 1
+    def __iadd__(self, o):
+        for x, m in list(o.c.items()): self.c[x] = self.c.get(x, 0) + m
+        self.n += o.n; return self
+    def __len__(self): return self.n
+    def __bool__(self): return self.n > 0
+    def __iter__(self): return iter(self.c)           # distinct items (enough for min, max, set)
+    def __contains__(self, x): return x in self.c
+    def expanded(self): return sorted(x for x, m in self.c.items() for _ in range(m))
+
 def multiset_sub(a, b):
     from collections import Counter
-    ca = Counter(a); cb = Counter(b)
-    return all(cb[x] >= c for x, c in ca.items())
+    ca = Counter(a); cb = b.c if isinstance(b, MS) else Counter(b)
+    return all(cb.get(x, 0) >= c for x, c in ca.items())
 
 def strictly_increasing(l):
     return all(l[i] < l[i + 1] for i in range(len(l) - 1))
@@ -412,7 +446,7 @@ def oracle_c07(case, irecs, mrecs):
             continue
         if oc == 1:
             if R == [1]:
-                regs[op[1]] = dict(log=[], epoch=i, kind=op[2])
+                regs[op[1]] = dict(log=MS(), epoch=i, kind=op[2])
                 if not valid_k(op[3]):
                     fail('cq_bad_k_accepted', 'k = %d (not a power of two in [2, 32768]) was accepted' % op[3], i)
             elif valid_k(op[3]) and op[2] in (0, 1, 2):
@@ -421,11 +455,11 @@ def oracle_c07(case, irecs, mrecs):
         r = op[1]
         if oc == 13:
             if R == [1] and op[2] in regs:
-                g2 = regs[op[2]]; regs[r] = dict(log=list(g2['log']), epoch=i, kind=g2['kind'])
+                g2 = regs[op[2]]; regs[r] = dict(log=g2['log'].copy(), epoch=i, kind=g2['kind'])
             continue
         if oc in (15, 16):
             if R == [1] and op[2] in regs and r in regs:
-                g2 = regs[op[2]]; regs[r] = dict(log=list(g2['log']), epoch=i, kind=g2['kind'])
+                g2 = regs[op[2]]; regs[r] = dict(log=g2['log'].copy(), epoch=i, kind=g2['kind'])
                 if oc == 16:
                     del regs[op[2]]
             continue
@@ -478,7 +512,7 @@ def oracle_c07(case, irecs, mrecs):
                 fail('cq_space_bound', 'num_retained %d differs from the stated n mod 2k + k * popcount(n / 2k) = %d (k = %d, n = %d)' % (nret, retained_items(k, n), k, n), i)
             if (est == 1) != (n >= 2 * k):
                 fail('cq_estimation_flag', 'is_estimation_mode() = %d with n = %d, k = %d' % (est, n, k), i)
-            if est == 0 and (nret != n or sorted(items) != sorted(log)):
+            if est == 0 and (nret != n or (nret > 100000 or sorted(items) != log.expanded())):
                 fail('cq_exact_mode', 'not in estimation mode but the retained items are not the input multiset', i)
             h = view(r); h['retained'] = set(items); h['n'] = n
         elif oc in (6, 7, 8, 9, 10):
@@ -759,6 +793,7 @@ MANIFEST_C08 = dict(
 #   M19 merge(): exact target into estimating source takes the update path for k_ >= other.k (should be <=)   C07
 #   M20 (seeded C07-3) merge() no longer calls reset_sorted_view() at its end                C07 (cq_rank_vs_view; needs the 'cached-view' directed cases:
 #       estimating target that has answered a query + estimating source with an empty base buffer and k >= target's)
+#   M21 (seeded C08-12) get_sorted_view accumulates the level weight in a uint32_t                C07 (cq_view_total / rank; needs the 'levels>=32' doubling cases)
 # Harmless rewrites, not reported (exit 0 for C07 and C08):
 #   H1  merge_two_size_k_buffers takes ties from the other side
 #   H2  merge(): k_ <= other.k -> k_ < other.k in the exact-target branch (downsampling_merge with factor 1 does the same)
